@@ -334,3 +334,9 @@ PROP = with_src(C09(), share=10, functions=["_format_marker", "_normalize_extra_
                           "Src.Marker.__str___translated", "Src.Marker.__str___eq_model",
                           "Src.Marker.__eq___translated", "Src.Marker.__eq___eq_model", "Src.Marker.__eq___not_marker",
                           "Src.Marker.__hash___translated", "Src.Marker.__hash___eq_model"])
+
+# x9: the methods of the tokenizer all three grammars run on (`check/read/expect/consume/raise_syntax_error`, `enclosing_tokens` cut at
+# its `yield`) are translated from `_tokenizer.py` and proved equal to the primitives of PkgModel/PyTok.lean that the translated parser
+# functions call — the digest guard on the class is gone, an edit of a method is a failed proof obligation here
+from srccall import X9_TOK_FUNCS, X9_TOK_THEOREMS, X9_TOK_MODULE  # noqa: E402
+PROP = with_src(PROP, share=10, functions=X9_TOK_FUNCS, module=[X9_TOK_MODULE], theorems=X9_TOK_THEOREMS)
